@@ -109,7 +109,19 @@ pub fn syntax(rep: &mut Report, focus: &str, n: usize, seed: u64, thorough: bool
                 continue;
             }
             let i = rng.below(q.len());
-            match rng.below(4) {
+            match rng.below(5) {
+                4 => {
+                    // a multi-character fragment: constructs whose validity depends on where they stand
+                    const FRAGMENTS: &[&str] = &[
+                        "\\u{3e}", "\\u003E", "\\u{+41}", "\\u{110000}", "\\k<a>", "(?<a>", "(?<a\\u{62}>", "(?i-i:", "(?-:", "(?ii:", "\\08", "\\00", "{,1}", "{1,0}",
+                        "{2}", "\\p{Lu}", "\\P{RGI_Emoji}", "\\p{RGI_Emoji}", "[^", "&&", "--", "\\q{", "\\c1", "\\x4", "(?<=", "(?<!", "\\b", "\\B", "\\-",
+                        "\\uD83D", "\\uDE00", "\\1", "\\9", "(?:", "?", "*?", "]", "}", "[]", "[^]", "\\d-a", "a-\\d",
+                    ];
+                    let frag: Vec<u32> = rng.pick(FRAGMENTS).chars().map(|c| c as u32).collect();
+                    for (k, c) in frag.into_iter().enumerate() {
+                        q.insert(i + k, c);
+                    }
+                }
                 0 => {
                     q.remove(i);
                 }
